@@ -17,6 +17,23 @@ let rec int_of_nat (n : nat) : int = match n with O -> 0 | S m -> 1 + int_of_nat
 let verdict_s = function
   | NotACycle -> "not-a-cycle" | Guarded -> "guarded" | DescentOnly -> "descent-only" | Unguarded -> "unguarded"
 
+let status_s = function
+  | FGuard -> "guard" | FUnguardedCycle -> "gf-cycle" | FDescentCycle -> "descent-cycle"
+  | FOffCycle -> "off-cycle" | FUnknown -> "unknown"
+
+(* the model's own name table: names travel as text, so a model built from another revision of
+   the graph cannot be asked about the wrong function *)
+let name_table : (string, nat) Hashtbl.t =
+  let t = Hashtbl.create 512 in
+  List.iter (fun (id, codes) ->
+    let b = Buffer.create 32 in
+    List.iter (fun c -> Buffer.add_char b (Char.chr (int_of_z c))) codes;
+    Hashtbl.replace t (Buffer.contents b) id) fn_names;
+  t
+let fingerprint () =
+  let names = List.sort compare (Hashtbl.fold (fun k _ acc -> k :: acc) name_table []) in
+  Digest.to_hex (Digest.string (String.concat "," names))
+
 let stack_mode inp outp =
   let oc = open_out outp in
   List.iter (fun line ->
@@ -24,12 +41,17 @@ let stack_mode inp outp =
     | [] -> ()
     | "META" :: _ ->
         let (((budget, l), acyc), guards) = model_meta in
-        Printf.fprintf oc "meta budget=%d L=%d core_acyclic=%d guards=%s\n" (int_of_z budget) (int_of_z l)
+        Printf.fprintf oc "meta budget=%d L=%d core_acyclic=%d guards=%s nfuncs=%d names=%s\n" (int_of_z budget) (int_of_z l)
           (if acyc then 1 else 0) (String.concat "," (List.map (fun g -> string_of_int (int_of_nat g)) guards))
+          (Hashtbl.length name_table) (fingerprint ())
     | "JUMPS" :: _ ->
         List.iter (fun (a, b) ->
           Printf.fprintf oc "jump %d %d off_cycle=%d\n" (int_of_nat a) (int_of_nat b)
             (if off_cycle runtime_noguard a then 1 else 0)) jump_edges
+    | "F" :: name :: _ ->
+        (match Hashtbl.find_opt name_table name with
+         | None -> Printf.fprintf oc "fn %s missing\n" name
+         | Some id -> Printf.fprintf oc "fn %s %s\n" name (status_s (fn_status id)))
     | "S" :: name :: ids ->
         let c = List.map (fun s -> nat_of_int (int_of_string s)) ids in
         Printf.fprintf oc "%s %s\n" name (verdict_s (classify_shape c))
